@@ -2,7 +2,7 @@
    source (gen/KernelRules_gen.v: get_kernel_type's chain, KernelType's codes, get_memory_kernel_type's prefix rules). *)
 From Coq Require Import ZArith List Bool String.
 From HTA.lib Require Import Base.
-From HTA.gen Require Import KernelRules_gen.
+From HTA.gen Require Import KernelRules_gen LaunchNames_gen.
 From HTA.model Require Import C14_Model.
 Open Scope Z_scope.
 
@@ -13,4 +13,8 @@ Theorem kernel_type_is_generated n :
 Proof. unfold get_kernel_type, kernel_type_gen. destruct (is_comm_kernel n), (is_memory_kernel n), (is_compute_kernel n); reflexivity. Qed.
 
 Theorem mem_type_is_generated n : mem_type n = mem_type_gen n.
+Proof. reflexivity. Qed.
+
+(* the launch-call names of the queue-length model are the ones read out of get_runtime_launch_events_query *)
+Theorem launch_names_are_generated : launch_names = launch_names_gen.
 Proof. reflexivity. Qed.
